@@ -283,9 +283,7 @@ func (fc *FnCtx) loadStructObj(ref *Term, t types.Type, st *State) *Term {
 	srt := fc.so.Sort(t)
 	var args []*Term
 	for i := 0; i < s.NumFields(); i++ {
-		f := s.Field(i)
-		fa := &Addr{Kind: aHeap, Ref: ref, Key: fieldKey(t, f.Name()), RootType: f.Type(), Type: f.Type()}
-		args = append(args, fc.load(fa, st))
+		args = append(args, fc.loadObjField(ref, t, i, st))
 	}
 	if len(args) == 0 {
 		return fc.tb.Const("mk_"+srt, srt)
@@ -299,9 +297,8 @@ func (fc *FnCtx) store(a *Addr, st *State, v *Term) {
 		srt := fc.so.Sort(a.Type)
 		for i := 0; i < s.NumFields(); i++ {
 			f := s.Field(i)
-			fa := &Addr{Kind: aHeap, Ref: a.Ref, Key: fieldKey(a.Type, f.Name()), RootType: f.Type(), Type: f.Type()}
 			fv := fc.tb.App(fc.so.FieldAcc(srt, f.Name(), i), fc.so.Sort(f.Type()), v)
-			fc.storeChecked(fa, st, fv)
+			fc.storeObjField(a.Ref, a.Type, i, st, fv)
 		}
 		return
 	}
@@ -408,7 +405,7 @@ func (fc *FnCtx) execInstr(in ssa.Instruction, st *State) {
 		switch b := base.(type) {
 		case *Addr:
 			if b.Kind == aHeap && b.Key == "OBJ" {
-				fc.regs[in] = &Addr{Kind: aHeap, Ref: b.Ref, Key: fieldKey(pt, f.Name()), RootType: f.Type(), Type: f.Type()}
+				fc.regs[in] = fc.heapFieldAddr(b.Ref, pt, in.Field)
 				return
 			}
 			na := *b
@@ -417,7 +414,7 @@ func (fc *FnCtx) execInstr(in ssa.Instruction, st *State) {
 			fc.regs[in] = &na
 		case *Term:
 			fc.derefCheck(b, st)
-			fc.regs[in] = &Addr{Kind: aHeap, Ref: b, Key: fieldKey(pt, f.Name()), RootType: f.Type(), Type: f.Type()}
+			fc.regs[in] = fc.heapFieldAddr(b, pt, in.Field)
 		default:
 			fc.unsup("FieldAddr base %T", base)
 		}
@@ -573,7 +570,8 @@ func (fc *FnCtx) freshRef(st *State, hint string) *Term {
 	tb := fc.tb
 	r := tb.Fresh(hint, "Ref")
 	al := fc.heapGet(st, "alloc", ArraySort("Ref", "Bool"))
-	fc.assume(st, tb.And(tb.Not(tb.Eq(r, tb.Const("null", "Ref"))), tb.Not(tb.Select(al, r))))
+	tb.DeclFun("emb_tag", []string{"Ref"}, "Int")
+	fc.assume(st, tb.And(tb.Not(tb.Eq(r, tb.Const("null", "Ref"))), tb.Not(tb.Select(al, r)), tb.Eq(tb.App("emb_tag", "Int", r), tb.Int(0))))
 	fc.heapSet(st, "alloc", tb.Store(al, r, tb.True()))
 	return r
 }
@@ -581,12 +579,8 @@ func (fc *FnCtx) freshRef(st *State, hint string) *Term {
 // freshObject allocates a zeroed object of type t and returns its reference.
 func (fc *FnCtx) freshObject(st *State, t types.Type, hint string) *Term {
 	r := fc.freshRef(st, "new_"+hint)
-	if s, isS := isStructType(t); isS {
-		for i := 0; i < s.NumFields(); i++ {
-			f := s.Field(i)
-			a := &Addr{Kind: aHeap, Ref: r, Key: fieldKey(t, f.Name()), RootType: f.Type(), Type: f.Type()}
-			fc.storeRoot(a, st, fc.so.Zero(f.Type()))
-		}
+	if _, isS := isStructType(t); isS {
+		fc.zeroObj(st, r, t)
 	} else {
 		a := &Addr{Kind: aHeap, Ref: r, Key: fc.cellKey(t), RootType: t, Type: t}
 		fc.storeRoot(a, st, fc.so.Zero(t))
@@ -598,6 +592,11 @@ func (fc *FnCtx) unop(in *ssa.UnOp, st *State) Val {
 	tb := fc.tb
 	switch in.Op {
 	case token.MUL:
+		if g, ok := in.X.(*ssa.Global); ok {
+			if fn := fc.eng.constFuncGlobal(fc, g); fn != nil {
+				return &FuncRef{fn}
+			}
+		}
 		a := fc.ptrAddr(fc.val(in.X, st), in.X.Type(), st)
 		v := fc.load(a, st)
 		if v.Sort == "Ref" && a.Kind != aLocal {
